@@ -16,6 +16,9 @@ import (
 	"strings"
 )
 
+// Helpers collects lock-free unexported methods of *txObjectMap found by the last Check (they must only be called under the lock).
+var Helpers = map[string]bool{}
+
 var fields = map[string]bool{"mapByHash": true, "mapByID": true, "quota": true, "cost": true, "lock": true}
 
 // Check returns a list of violations of the lock discipline (empty = premise holds) and the list of methods inspected.
@@ -27,6 +30,7 @@ func Check(repo string) (problems []string, methods []string, err error) {
 		return nil, nil, err
 	}
 	found := false
+	Helpers = map[string]bool{}
 	var files []*ast.File
 	for _, e := range ents {
 		name := e.Name()
@@ -124,6 +128,48 @@ func Check(repo string) (problems []string, methods []string, err error) {
 			})
 		}
 	}
+	// lock-free helpers may only be called from the map's own methods (which hold the lock)
+	for _, f := range files {
+		for _, d := range f.Decls {
+			fd, ok := d.(*ast.FuncDecl)
+			if !ok || fd.Body == nil {
+				continue
+			}
+			inMap := false
+			if fd.Recv != nil && len(fd.Recv.List) == 1 {
+				if st, ok := fd.Recv.List[0].Type.(*ast.StarExpr); ok {
+					if id, ok := st.X.(*ast.Ident); ok && id.Name == "txObjectMap" {
+						inMap = true
+					}
+				}
+			}
+			if inMap {
+				continue
+			}
+			ast.Inspect(fd.Body, func(n ast.Node) bool {
+				ce, ok := n.(*ast.CallExpr)
+				if !ok {
+					return true
+				}
+				se, ok := ce.Fun.(*ast.SelectorExpr)
+				if !ok || !Helpers[se.Sel.Name] {
+					return true
+				}
+				base := ""
+				switch b := se.X.(type) {
+				case *ast.Ident:
+					base = b.Name
+				case *ast.SelectorExpr:
+					base = b.Sel.Name
+				}
+				if holders[base] {
+					problems = append(problems, fmt.Sprintf("%s: %s calls the lock-free helper txObjectMap.%s without holding the map lock",
+						fset.Position(ce.Pos()), fd.Name.Name, se.Sel.Name))
+				}
+				return true
+			})
+		}
+	}
 	if !found {
 		problems = append(problems, "no methods of *txObjectMap found in txpool/ (type renamed or moved: the atomic-step premise cannot be re-read from the code)")
 	}
@@ -160,7 +206,30 @@ func checkMethod(fset *token.FileSet, fd *ast.FuncDecl, recv string) (problems [
 	fail := func(format string, a ...any) {
 		problems = append(problems, fmt.Sprintf("%s: txObjectMap.%s: ", pos, fd.Name.Name)+fmt.Sprintf(format, a...))
 	}
-	if recv == "" || len(fd.Body.List) < 2 {
+	if recv == "" {
+		fail("receiver is not named")
+		return
+	}
+	// a method that never touches the lock is a helper: legal iff it is only called from inside the map's own methods
+	// (checked by the caller through Helpers); it must not be exported
+	usesLock := false
+	ast.Inspect(fd.Body, func(n ast.Node) bool {
+		if ce, ok := n.(*ast.CallExpr); ok {
+			if _, ok := isLockCall(ce, recv, "Lock", "Unlock", "RLock", "RUnlock"); ok {
+				usesLock = true
+			}
+		}
+		return true
+	})
+	if !usesLock {
+		if ast.IsExported(fd.Name.Name) {
+			fail("exported method does not take the lock")
+		} else {
+			Helpers[fd.Name.Name] = true
+		}
+		return
+	}
+	if len(fd.Body.List) < 2 {
 		fail("body does not start with lock acquisition")
 		return
 	}
